@@ -153,6 +153,25 @@ def run(tier, seed):
                           {"input": rq, "implementation": h, "expected": want, "model": a, "replay_cmd": f"echo '{rq}' | {har}"})
         elif a != h:
             rep.violation(f"C02/correspondence/{exp}-{d}/stream-{api}", f"model and implementation differ on '{rq[:100]}'", {"request": rq, "model": a, "implementation": h}, no_input=True)
+    # ---- the encrypted variants of every reader/writer at the header-form boundaries (sequences of two messages)
+    ereqs, emeta = [], []
+    for exp in EXPS:
+        for d in DIRS:
+            cap = max_body(exp, d) - (2 if not (exp == "wrath" and d == "server") else 0)
+            for api in ("enum", "expect"):
+                for l in [0, 1, 299, 0x7FFA, 0x7FFB, 0x7FFC, 0x7FFD, 0x7FFE, 0x7FFF, 0x8000, 0x8001, 40000] + ([70000] if exp == "wrath" and d == "server" else []):
+                    l = min(l, cap)
+                    ereqs.append(f"eseq {exp} {d} {api} {rng.bytes(40).hex()} w{l},w3")
+                    emeta.append((exp, d, api, l))
+    eo = run_parallel(har, ereqs, jobs=12)
+    for (exp, d, api, l), rq, h in zip(emeta, ereqs, eo):
+        hl = lambda n: (3 if (exp == "wrath" and d == "server" and n + 2 > 0x7FFF) else 2) + (4 if d == "client" else 2)
+        if l > 65535:
+            continue     # *_WARDEN_DATA itself is limited to 65535 bytes; alignment of larger frames is covered unencrypted above
+        want = f"ok hdronly=1 {l}@{hl(l) + l} 3@{hl(l) + l + hl(3) + 3} end={hl(l) + l + hl(3) + 3}"
+        if h != want:
+            rep.violation(f"C02/{exp}-{d}/encrypted-{api}", f"{exp} {d}: encrypted write / {api} read of a {l}-byte body followed by a second message: '{h[:140]}' (expected '{want}')",
+                          {"input": rq, "implementation": h, "expected": want, "replay_cmd": f"echo '{rq}' | {har}"})
     n_known = 0
     rep.coverage = {
         "obligations": po["obligations"] + len(CONSTS), "discharged": po["discharged"] + sum(1 for k, v in CONSTS.items() if consts_seen.get(k) == v),
@@ -160,7 +179,7 @@ def run(tier, seed):
         "trusted_base": TRUSTED_BASE_COMMON + ["hand transcription of traits/*.rs, util/trait_helpers/*.rs, the header parsing in opcodes.rs and expected.rs (validated by the correspondence)",
                                                "the body codec of *_WARDEN_DATA (u8[-], at most 65535 bytes) is modelled in the driver only for this correspondence"],
         "theorems": po["theorems"], "constants_checked": consts_seen,
-        "evaluations": len(reqs) + len(reads) + len(seqs), "distinct_nontrivial": len(set(meta)) + len(set(map(str, smeta))),
+        "evaluations": len(reqs) + len(reads) + len(seqs) + len(ereqs), "encrypted_boundary_sequences": len(ereqs), "distinct_nontrivial": len(set(meta)) + len(set(map(str, smeta))),
         "write_requests": len(reqs), "read_requests": len(reads), "sequences": len(seqs), "writes_violating_property": n_abort,
         "rule": "body lengths 0..300 (thorough 0..2048), +-8 around 0x7FFB 0x7FFF 0x8000 0xFFFB 0xFFFF 0x10003, random lengths, large Wrath server bodies; 3 expansions x 2 directions; "
                 "each written frame read back through the opcode-enum reader and the expect helper with 0/3 trailing bytes and with 2 surplus body bytes; random sequences of 1-20 messages on one stream",
